@@ -1,6 +1,6 @@
 #!/bin/bash
 # regression suite for the framework itself: interpreter self-tests (the repo's own unit tests through rsym) + every quick check
 cd "$(dirname "$0")/.."; export RS2AST=$PWD/.cache/rs2ast/release/rs2ast
-D="/repo/src/errors.rs /repo/src/types.rs /repo/src/streaming/event.rs /repo/src/rete/facts.rs /repo/src/rete/working_memory.rs"
-for f in backward/proof_graph.rs engine/facts.rs rete/tms.rs rete/agenda.rs engine/module.rs streaming/watermark.rs streaming/window.rs rete/working_memory.rs; do python3-vt rsym/selftest.py /repo/src/$f $D 2>&1 | tail -1; done
+D="/repo/src/errors.rs /repo/src/types.rs /repo/src/streaming/event.rs /repo/src/rete/facts.rs /repo/src/rete/working_memory.rs /repo/src/engine/rule.rs"
+for f in backward/proof_graph.rs engine/facts.rs rete/tms.rs rete/agenda.rs engine/module.rs streaming/watermark.rs streaming/window.rs rete/working_memory.rs rete/alpha_memory_index.rs backward/conclusion_index.rs; do python3-vt rsym/selftest.py /repo/src/$f $D 2>&1 | tail -1; done
 for p in $(python3 -c "import json;print(' '.join(c['property_id'] for c in json.load(open('MANIFEST.json'))['checks']))"); do ./bin/check $p --tier ${1:-quick} 2>&1 | tail -1; done
